@@ -2,13 +2,18 @@
 coq/theories/Run/RunC06.v):  (6 ty D (op ...) (out ...)) with ops
 (0 tensor var shape data) declaration | (1 assign code c a) unary kinds | (2 mode code a b)
 binary kinds (mode: operator / binary / left assign / right assign) | (3 a b) matmul |
-(4 mutating e a) map / map_mut with a scalar closure e | (5 tensor shape colmajor a) from_iter |
+(4 mutating e a) map / map_mut with a scalar closure e | (5 tensor shape colmajor e a) from_iter
+of the mapped record iterator |
 (6 e1 e2 a) from_iters::<2>.
 Systematic part: every unary kind, every binary kind x mode, matmul, map, from_iter as a
 single-operation program for every variable/constant pairing, tensors of D = 1, 2, 3 and
 matrices, over a few shapes <= 3x3(x2); random part: programs of 1..6 operations over 2..4
 declarations (mixed pairings, reuse of intermediate results, occasional shape / name
-mismatches and inconsistent-history closures), element types Rat and Fp."""
+mismatches and inconsistent-history closures), element types Rat and Fp.
+Mixed constant / variable record streams (constant first, variable first, a variable of another
+WengertList first or later) are fed systematically to from_iters (either output), from_iter
+(matching and non-matching target shape), map and map_mut; the Err variant (0
+InconsistentHistory, 1 Empty, 2 Shape) is part of the compared outcome."""
 import itertools
 from tools.vlib import sx
 
@@ -67,14 +72,31 @@ def systematic(quick):
                             yield sx([6, ty, D, [da, [4, mut, e, 0]], [1]])
                     yield sx([6, ty, D, [da, [6, [4, 2, [0], [0]], [3, 10, num(ty, 1), [0]], 0]], [1, 2]])
                     yield sx([6, ty, D, [da, [6, [0], [2, [0]], 0]], [1, 2]])
+                    # MIXED constant / variable streams, both orders (constant first, variable
+                    # first, a variable of another list first / later), fed to from_iters (either
+                    # of the two outputs), from_iter (right and wrong target shape: the error
+                    # priority InconsistentHistory > Shape), map and map_mut
+                    # (a one-element container would be collected entirely on the foreign list,
+                    # which is outside the case language)
+                    ms = [m for m in mixed(ty) if n > 1 or m[:2] != [5, [6]]]
+                    for m1 in ms:
+                        for m2 in ms:
+                            yield sx([6, ty, D, [da, [6, m1, m2, 0]], [1, 2]])
+                        for tgt_tensor, tsh in ((1, tshape(D, [n] + [1] * (D - 1))), (0, mshape(1, n)),
+                                                (1, tshape(D, [n + 1] + [1] * (D - 1))), (0, mshape(2, n + 1))):
+                            yield sx([6, ty, D, [da, [5, tgt_tensor, tsh, 0, m1, 0]], [1]])
+                        if not tensor:
+                            yield sx([6, ty, D, [da, [5, 0, mshape(sh[1][1], sh[0][1]), 1, m1, 0]], [1]])
+                        for mut in (0, 1):
+                            yield sx([6, ty, D, [da, [4, mut, m1, 0]], [1]])
                     # from_iter: same shape, flattened / reshaped, to the other container kind
                     for tgt_tensor, tsh in ((1, tshape(D, [n] + [1] * (D - 1))), (0, mshape(1, n)), (0, mshape(n, 1)),
                                             (1, tshape(D, [n + 1] + [1] * (D - 1))), (0, mshape(2, n))):
-                        yield sx([6, ty, D, [da, [5, tgt_tensor, tsh, 0, 0]], [1]])
+                        yield sx([6, ty, D, [da, [5, tgt_tensor, tsh, 0, [0], 0]], [1]])
                     if not tensor:
                         r, c = sh[0][1], sh[1][1]
-                        yield sx([6, ty, D, [da, [5, 0, mshape(c, r), 1, 0]], [1]])
-                        yield sx([6, ty, 2, [da, [5, 1, tshape(2, [c, r]), 1, 0]], [1]])
+                        yield sx([6, ty, D, [da, [5, 0, mshape(c, r), 1, [0], 0]], [1]])
+                        yield sx([6, ty, 2, [da, [5, 1, tshape(2, [c, r]), 1, [0], 0]], [1]])
                     for vb in (1, 0):
                         db = [0, tensor, vb, sh, data(ty, n, 5)]
                         for mode in range(4):
@@ -109,6 +131,23 @@ def systematic(quick):
                     yield sx([6, ty, 2, [da, dc, [3, 1, 0]], [2]])
 
 
+def mixed(ty):
+    """closures producing consistent and MIXED histories over the elements of one container"""
+    k = lambda v: num(ty, v)
+    X = [0]
+    yield X                                   # consistent: the elements themselves
+    yield [3, 12, k(2), X]                    # consistent: 2 * x
+    yield [2, X]                              # consistent: all constants
+    yield [5, [2, X], X]                      # constant first, then the container's own records
+    yield [5, X, [2, X]]                      # own record first, then constants
+    yield [5, [1, k(7)], [4, 2, X, X]]        # constant first, then x * x
+    yield [5, [3, 10, k(1), X], [1, k(0)]]    # x + 1 first, then constants
+    yield [5, [6], X]                         # a variable of ANOTHER list first
+    yield [5, X, [6]]                         # ... or later
+    yield [5, [6], [2, X]]                    # foreign variable first, then constants
+    yield [5, [2, X], [6]]                    # constants first, then foreign variables
+
+
 def closures(ty):
     k = lambda v: num(ty, v)
     X = [0]
@@ -136,12 +175,16 @@ def random_closure(rng, ty, depth, allow_first=True):
     if r < 0.93 or not allow_first:
         return [4, rng.randrange(6), random_closure(rng, ty, depth - 1, allow_first),
                 random_closure(rng, ty, depth - 1, allow_first)]
+    if rng.random() < 0.6:
+        # a MIXED stream: constants on one side of the first index, variables on the other
+        a, b = [2, random_closure(rng, ty, depth - 1, False)], random_closure(rng, ty, depth - 1, False)
+        return [5, a, b] if rng.random() < 0.5 else [5, b, a]
     return [5, random_closure(rng, ty, depth - 1, False), random_closure(rng, ty, depth - 1, False)]
 
 
 def closure_growth(e):
     t = e[0]
-    if t in (0, 1):
+    if t in (0, 1, 6):
         return 1
     if t == 2:
         return closure_growth(e[1])
@@ -279,19 +322,27 @@ def random_program(rng):
             else:
                 d = rng.choice(divs)
                 tsh = mshape(d, n // d)
-            ops.append([5, tgt_tensor, tsh, colmajor, a])
+            e = [0] if rng.random() < 0.5 else random_closure(rng, ty, 2)
+            bits = ea["bits"] * closure_growth(e) + 8
+            if bits > limit:
+                continue
+            ops.append([5, tgt_tensor, tsh, colmajor, e, a])
             if elements(tsh) != elements(ea["shape"]):
                 break
-            env.append(dict(ea, tensor=tgt_tensor, shape=tsh))
+            env.append(dict(ea, tensor=tgt_tensor, shape=tsh, bits=bits))
+            if "(5 " in sx(e) and elements(ea["shape"]) > 1:
+                break
         else:
-            e1 = random_closure(rng, ty, 2, False)
-            e2 = random_closure(rng, ty, 2, False)
+            e1 = random_closure(rng, ty, 2, rng.random() < 0.5)
+            e2 = random_closure(rng, ty, 2, rng.random() < 0.5)
             bits = ea["bits"] * max(closure_growth(e1), closure_growth(e2)) + 8
             if bits > limit:
                 continue
             ops.append([6, e1, e2, a])
             env.append(dict(ea, bits=bits))
             env.append(dict(ea, bits=bits))
+            if ("(5 " in sx(e1) or "(5 " in sx(e2)) and elements(ea["shape"]) > 1:
+                break
         done += 1
     nout = rng.choice([1, 1, 2, 3])
     outs = sorted(set([len(env) - 1] + [rng.randrange(len(env)) for _ in range(nout - 1)]))
@@ -315,6 +366,7 @@ def distribution(lines):
     from tools.vlib import parse_sx
     names = {0: "decl", 1: "unary", 2: "binary", 3: "matmul", 4: "map", 5: "from_iter", 6: "from_iters"}
     kinds, lens, tys = {}, {}, {}
+    mixed_streams = sum(1 for c in lines if "(5 (" in c or "(5 (0)" in c)
     for c in lines:
         t = parse_sx(c)
         tys["Rat" if t[1] == 0 else "Fp"] = tys.get("Rat" if t[1] == 0 else "Fp", 0) + 1
@@ -323,4 +375,5 @@ def distribution(lines):
             kinds[names[op[0]]] = kinds.get(names[op[0]], 0) + 1
             n += op[0] != 0
         lens[n] = lens.get(n, 0) + 1
-    return {"operation_kinds": kinds, "operations_per_program": dict(sorted(lens.items())), "element_types": tys}
+    return {"operation_kinds": kinds, "operations_per_program": dict(sorted(lens.items())), "element_types": tys,
+            "cases_with_index_dependent_closures": mixed_streams}
